@@ -1,15 +1,22 @@
 // Package c17 binds spec/services/*.tla to the real dskit services package (C17).
 //
-// spec -> code: TestReplay replays the behaviours of ServiceGated.tla (one per transition of the
-// gated state graph, emitted by TLC) on a real BasicService inside testing/synctest: the three
-// service functions, the listener callbacks and services.VerifYield("StopAsync.checked") are gates
-// the harness opens one at a time, everything else is an ordinary API call. After every step and
-// synctest.Wait() the observable state of the real service is compared with the observation TLC
+// spec -> code (c17_test.go, c17_manager_test.go): TestReplay replays the behaviours of
+// ServiceGated.tla / ManagerGated.tla (one per transition of the gate-granularity state graph,
+// printed by TLC) on real BasicService / Manager objects inside testing/synctest: the three service
+// functions, listener callbacks and services.VerifYield("StopAsync.checked") are gates the harness
+// opens one at a time, everything else is an ordinary API call. After every step and
+// synctest.Wait() the observable state of the real objects is compared with the observation TLC
 // printed for that step.
 //
 // A panic inside a goroutine started by dskit (b.main, listener goroutines) cannot be recovered, so
-// the replay runs in a child process; the parent turns a crashed child into a mismatch for the
-// behaviour that was running and restarts the child after it.
+// the replay runs in child processes (one per shard); the parent turns a crashed child into a
+// mismatch for the behaviour that was running and restarts the child after it.
+//
+// code -> spec (c17_record_test.go): TestRecord records traces of free-running goroutines for
+// ServiceTrace.tla; c17_failurewatcher_test.go probes services.FailureWatcher.
+//
+// Environment: VERIF_JOBS (manifest written by checks/c17.py), VERIF_OUT, VERIF_C17_SHARDS
+// (number of child processes, default min(8, NumCPU/2)), VERIF_TRACE / VERIF_NTRACES (TestRecord).
 package c17
 
 import (
